@@ -145,7 +145,13 @@ fn emit_one<A: Actor<Msg = Msg, Timer = Timer, Random = Rand>>(c: RCmd, o: &mut 
             RCmd::CancelTimer(t) => o.cancel_timer(t),
             RCmd::ChooseRandom(k, v) => {
                 if v.is_empty() {
-                    o.remove_random(k)
+                    // "no options" is said either way: by remove_random, or by overwriting the
+                    // key with an empty list
+                    if crate::ctx::hash_of(&k) % 2 == 0 {
+                        o.remove_random(k)
+                    } else {
+                        o.choose_random(k, Vec::new())
+                    }
                 } else {
                     o.choose_random(k, v)
                 }
